@@ -28,7 +28,14 @@ def make_pki(ctx):
     _openssl(['x509', '-req', '-in', 'server.csr', '-CA', 'ca.pem', '-CAkey', 'ca.key', '-CAcreateserial', '-out', 'server.crt', '-days', '3'], d)
     _openssl(['genrsa', '-out', 'other.key', '2048'], d)
     rd = lambda n: open(os.path.join(d, n), 'rb').read()
-    return {'dir': d, 'ca': os.path.join(d, 'ca.pem'), 'cert': rd('server.crt'), 'key': rd('server.key'), 'otherkey': rd('other.key')}
+    pki = {'dir': d, 'ca': os.path.join(d, 'ca.pem'), 'cert': rd('server.crt'), 'key': rd('server.key'), 'otherkey': rd('other.key')}
+    # certificates that tell which file find_servercert() picked (same key, different CN)
+    for cn in ('ip', 'ipport'):
+        _openssl(['req', '-new', '-key', 'server.key', '-out', cn + '.csr', '-subj', '/CN=' + cn], d)
+        _openssl(['x509', '-req', '-in', cn + '.csr', '-CA', 'ca.pem', '-CAkey', 'ca.key', '-CAcreateserial', '-out', cn + '.crt', '-days', '3'], d)
+        pki['cert_' + cn] = rd(cn + '.crt')
+    pki['cert_general'] = pki['cert']
+    return pki
 
 
 # ------------------------------------------------------------------------------------------------
@@ -73,24 +80,61 @@ class Case:
     'o' (complete the handshake), 'g<n>' (the next clear item is sent instead of a ClientHello: OpenSSL
     takes n bytes of it; plain 'g' = 5, the record header), 'c' (close), 't' (stay silent)"""
 
-    def __init__(self, mode, cert='u', port='25', clear=(), tls=(), hs=(), eat=5, tag='', clean=True):
+    def __init__(self, mode, cert='u', port='25', clear=(), tls=(), hs=(), eat=5, tag='', clean=True, localip=None, files=None):
         self.mode, self.cert, self.port = mode, cert, port
         self.clear, self.tls, self.hs, self.eat = list(clear), list(tls), list(hs), eat
         self.tag, self.clean = tag, clean
+        # certificate name scenarios (cert == 'files'): TCP6LOCALIP text and the files under control/
+        # as {name: 'cert+key' | 'cert' | 'key' | 'wrongkey'}; port None = TCPLOCALPORT not set
+        self.localip, self.files = localip, files
 
     def dumps(self):
         enc = lambda its: [it[1].hex() if it[0] == 'S' else 'W' for it in its]
         return json.dumps({'mode': self.mode, 'cert': self.cert, 'port': self.port, 'clear': enc(self.clear), 'tls': enc(self.tls),
-                           'hs': self.hs, 'eat': self.eat, 'tag': self.tag, 'clean': self.clean}, separators=(',', ':'))
+                           'hs': self.hs, 'eat': self.eat, 'tag': self.tag, 'clean': self.clean,
+                           'localip': self.localip, 'files': self.files}, separators=(',', ':'))
 
     @staticmethod
     def loads(s):
         d = json.loads(s)
         dec = lambda its: [('W',) if x == 'W' else ('S', bytes.fromhex(x)) for x in its]
-        return Case(d['mode'], d['cert'], d['port'], dec(d['clear']), dec(d['tls']), d['hs'], d.get('eat', 5), d.get('tag', ''), d.get('clean', True))
+        return Case(d['mode'], d['cert'], d['port'], dec(d['clear']), dec(d['tls']), d['hs'], d.get('eat', 5), d.get('tag', ''), d.get('clean', True),
+                    d.get('localip'), d.get('files'))
+
+
+def local_ip_text(case):
+    """xmitstat.localip: the address as tcpserver gives it, IPv4 form for v4-mapped addresses"""
+    ip = case.localip or LOCALIP
+    return ip[7:] if ip.startswith('::ffff:') else ip
+
+
+def cert_kind_of(case, name):
+    """which of the three test certificates goes into a certificate file of this name"""
+    ip = local_ip_text(case)
+    if case.port is not None and name == 'servercert.pem.%s:%s' % (ip, case.port):
+        return 'ipport'
+    if name == 'servercert.pem.' + ip:
+        return 'ip'
+    return 'general'
+
+
+def files_control(pki, case):
+    c = {'rcpthosts': (smtpworld.LOCAL + '\n').encode(), 'timeoutsmtpd': b'2\n'}
+    for name, what in case.files.items():
+        cert = pki['cert_' + cert_kind_of(case, name)] if name.startswith('servercert') else b''
+        c[name] = {'cert+key': cert + pki['key'], 'cert': cert, 'key': pki['key'], 'wrongkey': pki['otherkey']}[what]
+    return c
 
 
 def scenario_for(pki, case):
+    if case.cert == 'files':
+        sc = smtpworld.base_scenario(port=case.port or '25', extra_control=files_control(pki, case))
+        sc.localip = case.localip or LOCALIP
+        if case.port is None:
+            sc.env['TCPLOCALPORT'] = None
+        sc.qq = ['all all 0'] * 4
+        sc.items = list(case.clear)
+        return sc
     sc = smtpworld.base_scenario(port=case.port, extra_control=control_for(pki, case.cert, case.port))
     sc.localip = LOCALIP
     sc.qq = ['all all 0'] * 4
@@ -126,7 +170,43 @@ def hs_tok(case):
     return ','.join(one(h) for h in case.hs) or '-'
 
 
+def cert_names(case):
+    """the three names find_servercert() tries, in its order (relative to control/)"""
+    ip = local_ip_text(case)
+    names = []
+    if case.port is not None:
+        names.append('servercert.pem.%s:%s' % (ip, case.port))
+    names += ['servercert.pem.' + ip, 'servercert.pem']
+    return names
+
+
+def files_verdict(case):
+    """specification level: (certificate usable, certificate found, chosen certificate file)"""
+    if case.port == '465':
+        # smtp_ehlo() does not look for a certificate on the smtps port: tls_init() uses the plain name, key inside
+        return ('u' if case.files.get('servercert.pem') == 'cert+key' else 'x'), 0, 'servercert.pem'
+    for n in cert_names(case):
+        if n in case.files:
+            key = 'serverkey.pem' + n[len('servercert.pem'):]
+            if key in case.files:
+                usable = case.files[key] == 'key' and case.files[n] in ('cert', 'cert+key')
+            else:
+                usable = case.files[n] == 'cert+key'
+            return ('u' if usable else 'x'), 1, n
+    return 'x', 0, None
+
+
+def servercert_line(case, n):
+    ip = local_ip_text(case).encode()
+    return 'servercert %s %s %d %s' % (ip.hex(), case.port.encode().hex() if case.port is not None else '-', n,
+                                       ','.join(k.encode().hex() for k in case.files) or '-')
+
+
 def model_line(case):
+    if case.cert == 'files':
+        certv, found, _ = files_verdict(case)
+        cfg = '%s;cert=%s;found=%d;p465=%d' % (smtpworld.env_token(port=case.port or '25'), certv, found, 1 if case.port == '465' else 0)
+        return 'stls %s %s %s %s %s' % (cfg, hs_tok(case), wire_tok(case.clear), wire_tok(case.tls), verdict_table(case))
     certv, found = CERT_KINDS[case.cert]
     cfg = '%s;cert=%s;found=%d;p465=%d' % (smtpworld.env_token(port=case.port), certv, found, 1 if case.port == '465' else 0)
     return 'stls %s %s %s %s %s' % (cfg, hs_tok(case), wire_tok(case.clear), wire_tok(case.tls), verdict_table(case))
@@ -196,6 +276,9 @@ def t_obs(t):
 
 
 def header_obs(case):
+    if case.cert == 'files':
+        certv, found, _ = files_verdict(case)
+        return 'H/%d/%d/%d' % (1 if certv == 'u' else 0, found, 1 if case.port == '465' else 0)
     certv, found = CERT_KINDS[case.cert]
     return 'H/%d/%d/%d' % (1 if certv == 'u' else 0, found, 1 if case.port == '465' else 0)
 
@@ -250,6 +333,8 @@ def observe_script(case, result):
             obs.append(t_obs(t))
     for _, env in result.handoffs:
         obs.append('Q/%s' % env.hex())
+    if result.fault:
+        obs.append('F')
     return {'groups': groups, 'obs': obs, 'exit': result.exit, 'handoffs': [e.hex() for _, e in result.handoffs], 'fault': result.fault}
 
 
@@ -274,6 +359,7 @@ class TlsClient:
         self.hs = list(case.hs)
         self.last_line = b''
         self.stls_sent = False     # a STARTTLS line went out in clear and no handshake was tried since
+        self.peer_cn = None
         self.nq = 0
         self.unsolicited = 0
 
@@ -392,6 +478,11 @@ class TlsClient:
         self.obs.append('K/%d' % (1 if ok else 0))
         if ok:
             self.tls = so
+            try:
+                subj = dict(x[0] for x in so.getpeercert().get('subject', ()))
+                self.peer_cn = subj.get('commonName')
+            except Exception:
+                self.peer_cn = None
             # anything the server says now was not asked for inside TLS
             d = self._plain(0.15)
             if d:
@@ -485,7 +576,7 @@ def run_tls_sessions(ctx, binary, pki, cases, keep=False, workers=None):
         except subprocess.TimeoutExpired:
             p.kill(); stderr, rc = 'timeout', -14
         res = session.Result(d, rc, stderr)
-        out = {'replies': cl.replies, 'obs': cl.obs + [t_obs(t) for t in res.states], 'states': res.states, 'exit': res.exit,
+        out = {'replies': cl.replies, 'obs': cl.obs + [t_obs(t) for t in res.states] + (['F'] if res.fault else []), 'states': res.states, 'exit': res.exit, 'peer_cn': cl.peer_cn,
                'handoffs': [e.hex() for _, e in res.handoffs], 'fault': res.fault, 'clienterr': err, 'rc': rc}
         if not keep:
             shutil.rmtree(d, ignore_errors=True)
